@@ -81,6 +81,10 @@ func (P) Gen(rng *sim.Rng, tier string) *harness.Case {
 		a := int64([]int{1, 2, 5, 100}[rng.Intn(4)])
 		b := int64([]int{1, 2, 5, 100}[rng.Intn(4)])
 		cfg.Budget = []int64{a, int64(rng.Range(0, int(a)+1)), b, int64(rng.Range(1, 12)), int64(rng.Intn(2))}
+		if rng.Chance(0.5) {
+			// ... and the first rule is restored afterwards: [.., 1, requests after the restore]
+			cfg.Budget = append(cfg.Budget, 1, int64(rng.Range(1, 12)))
+		}
 	}
 	if len(cfg.Budget) == 0 && rng.Chance(0.03) {
 		d := int64(rng.Range(20, 60))
@@ -413,7 +417,7 @@ func (P) Exec(c *harness.Case) *harness.Outcome {
 		}
 	}
 	env := harness.Reset(cfg.Origin*1e6, harness.DefaultGeometry())
-	if len(cfg.Budget) == 5 {
+	if len(cfg.Budget) == 5 || len(cfg.Budget) == 7 {
 		execBudget(&cfg, o)
 		return o
 	}
@@ -932,6 +936,28 @@ func execBudget(cfg *Cfg, o *harness.Outcome) {
 	o.Probe("rule_replaced_inside_its_window_by_another_threshold")
 	if got != fresh && got != carried {
 		o.Fail("C13.replaced-rule-still-decides", 0, "hot-parameter QPS rule, threshold %d per hour: %d request(s) for one value admitted; rule replaced by threshold %d (fresh object, same ID, getter reports %d); of the next %d requests %d were admitted - the rule in force allows %d (consumption carried over) or %d (fresh), the budget left under the replaced rule was %d", a, k, b, thresholdInForce(resName), n, got, carried, fresh, a-k)
+		return
+	}
+	if len(cfg.Budget) != 7 || cfg.Budget[5] != 1 || cfg.Budget[6] <= 0 || cfg.Budget[6] > 1000 {
+		return
+	}
+	// the first rule is restored inside the same window: what the value consumed under either rule stays consumed
+	// (or every replacement starts the value afresh - the reading the second phase showed, if it showed one)
+	m := cfg.Budget[6]
+	load(a)
+	got3 := offer(m)
+	if o.Failed() {
+		return
+	}
+	o.Probe("replaced_rule_restored_inside_its_window")
+	fresh3, carried3 := min(m, a), min(m, a-k-got)
+	if carried3 < 0 {
+		carried3 = 0
+	}
+	okFresh := got3 == fresh3 && (got == fresh || fresh == carried)
+	okCarried := got3 == carried3 && (got == carried || fresh == carried)
+	if !okFresh && !okCarried {
+		o.Fail("C13.replaced-rule-still-decides", 0, "hot-parameter QPS rule, threshold %d per hour: %d request(s) for one value admitted; replaced by threshold %d: %d more admitted; the first rule restored (getter reports %d): of the next %d requests %d were admitted - the value has consumed %d of %d, so %d may pass (or %d if every replacement starts the value afresh, which the second phase did %sshow)", a, k, b, got, thresholdInForce(resName), m, got3, k+got, a, carried3, fresh3, map[bool]string{true: "", false: "not "}[got == fresh && fresh != carried])
 	}
 }
 
